@@ -29,13 +29,15 @@ class C05(Engine):
     level = "fault_enumeration"
     expected_kinds = {"prefix_tok", "prefix_chr", "tok_del", "tok_rep", "tok_ins", "tok_swap", "edit_pair", "flip",
                       "non_ascii", "bad_utf8", "lex_exhaustive", "lex_seeded", "lex_long_run", "pipeline_long_run", "pipeline_deep_nest", "cli_level", "prefix_line", "tok_rep_kw", "tok_rep_macro", "line_tail_lost", "undamaged"}
-    rule_text = ("Every workload program (repository samples, generated conforming/violating files, literal families) x both file "
-                 "types x every token boundary (prefix_tok) and every single-token deletion (tok_del) is executed, plus the middle of "
-                 "every multi-character token (prefix_chr), seeded token replace/insert/swap/pairs, byte flips, non-ASCII and invalid "
-                 "UTF-8 insertions, and the tokenizer alone on all strings of length <=4 over a 14-character alphabet, seeded lexeme "
-                 "sequences and long runs. A run is non-trivial when the delivered content differs from the base program and the "
-                 "analysis reached the rule loop; distinct = distinct (file type, fault kind, type of the last token delivered, "
-                 "last recognised statement, scope at the end) contexts.")
+    rule_text = ("Every base program (hand-written specials, generated conforming/violating files, repository samples; the quick tier "
+                 "caps the volume) x both file types x EVERY token boundary (prefix_tok), every line boundary (prefix_line), every lost "
+                 "line tail, every single-token deletion, the middle of every multi-character token, every identifier of every "
+                 "preprocessor line replaced by a keyword and every token of those lines by a macro defined in the file; seeded token "
+                 "replace/insert/swap/pairs, byte flips, non-ASCII and invalid UTF-8; every special member undamaged under both types; the "
+                 "same damage through main(); the tokenizer alone on ALL strings of length <=4 over a 14-character alphabet, seeded lexeme "
+                 "sequences, long runs of every character class; deep nesting (thousands of levels). A run is non-trivial when the "
+                 "delivered content differs from the base program and the analysis reached the rule loop; distinct = distinct (file type, "
+                 "fault kind, type of the last token delivered, last recognised statement, scope at the end) contexts.")
     assumptions = ["liveness deadline: at most 1000*(tokens+50) ticks between two progress events (pop_tokens / token emission), "
                    "400*(chars+10) raw_peek ticks for the lexer; wall backstop 20 s per child for loops that do not tick",
                    "oracle does not say which of verdict/fatal a damaged file gets (the statement allows both)",
